@@ -2,7 +2,7 @@
    In the model, RPanic stands for: a checked subtraction underflows, an assertion or a debug-only cross-check
    (brute-force fixed point, brute-force ROS 2 step enumeration) fails, or a loop exhausts its fuel; dbg = true is
    the build with debug assertions, dbg = false the release build.  On well-formed inputs (rb_steps_ok: well-formed
-   arrival bounds outside the two known step classes of C11, well-formed positive cost models) no analysis returns
+   arrival bounds outside the known step class of C11, ArrivalCurvePrefix, well-formed positive cost models) no analysis returns
    RPanic and the result does not depend on dbg.  NOT covered by these theorems: overflow of u64 additions and
    multiplications (unbounded N in the model) and the RefCell borrow discipline — exercised by running both build
    profiles of the real crate in the correspondence check. *)
